@@ -10,7 +10,7 @@ import ast
 from ..interp import check_loop
 from ..program import AnalysisError
 from ..rules import Arms, is_call, is_mcall, mentions
-from ..terms import C, Evaluator, G, P, is_t, mk_proj, show, subterms
+from ..terms import C, Evaluator, G, P, is_t, mk_proj, renorm, resolve, scenarios, show, subterms
 
 ST = "core/compiler/interpreters/stateful.py"
 ENV = "core/compiler/interpreters/environment.py"
@@ -43,10 +43,15 @@ def environment(chk, prog):
     okw = is_t(envw, "setitem") and envw[2] == ("attr", VAR, "count") and envw[3] == P("cell")
     ok = got.get("lit") == P("cell") and "drop" in got and okw
     chk.require(ok, "ENV", "Environment.write", "no write for literals and DropVars; otherwise env[var.count] = cell", derived=f"{ {k: show(v)[:60] for k, v in got.items()} } write={show(envw)[:80]}", expected="Literal -> return cell; DropVar -> unchanged; else self.env[var.count] = cell", where=W("write"))
-    evr = Evaluator(prog)
-    evr.opaque_methods.add("get")
-    r = evr.eval_fn(E.methods["read"], E.module, E)
-    oks = any(ret == ("call", ("attr", SELF, "get"), (VAR,), ()) for _, ret in r.returns) and len(r.raises) >= 1
+    # read returns exactly what get returns (whether it calls get or spells the lookup out), and raises when that is None
+    rg = Evaluator(prog).eval_fn(E.methods["get"], E.module, E)
+    r = Evaluator(prog).eval_fn(E.methods["read"], E.module, E)
+    oks = len(r.raises) >= 1 and all(any(is_t(t, "is") and t[2] == C(None) and p for t, p in c_) for c_, _x in r.raises)
+    for conds, leaf in scenarios(r.ret):
+        g_ = rg.ret
+        for c_, pol_ in conds:
+            g_ = resolve(g_, c_, pol_)
+        oks = oks and renorm(g_) == leaf
     chk.require(oks, "ENV", "Environment.read", "get or raise on an unbound variable", derived=show(r.ret)[:120], expected="self.get(var), ValueError when unbound", where=W("read"))
     r = ev.eval_fn(E.methods["copy"], E.module, E)
     okc = is_t(r.ret, "ctor") and r.ret[1] == "Environment" and is_t(r.ret[2][0], "dictfam")
@@ -169,16 +174,11 @@ def run(chk, prog):
     _ci = prog.cls("StatefulInterpreter", "interpreters/stateful.py")
     _fn = _ci.methods["eval_jaxpr_stateful"]
     _loops = [n for n in _ast.walk(_fn) if isinstance(n, _ast.For)]
-    _okctx = False
-    for _lp in _loops:
-        _withs = [n for n in _ast.walk(_lp) if isinstance(n, _ast.With) and any(_ast.unparse(it.context_expr).endswith(".ctx.manager") for it in n.items)]
-        _binds_outside = [n for n in _ast.walk(_lp) if isinstance(n, _ast.Call) and isinstance(n.func, _ast.Attribute) and n.func.attr in ("bind", "dispatch") or (isinstance(n, _ast.Call) and _ast.unparse(n.func).endswith("default_propagation_rule"))]
-        _inside = {id(x) for w_ in _withs for x in _ast.walk(w_)}
-        if _binds_outside and all(id(b_) in _inside for b_ in _binds_outside):
-            _okctx = True
+    from ..interp import bind_context_ok
+    _okctx, _ctxtxt = bind_context_ok(prog, _ci, _fn)
     # no equation is skipped: an unhandled equation with unused results may still have EFFECTS (io_callback, writes into a mutable array) that later outputs see
     _skips = [f"{type(n).__name__.lower()} at line {n.lineno}" for _lp in _loops for n in _ast.walk(_lp) if isinstance(n, (_ast.Continue, _ast.Break))]
     chk.require(not _skips, "INTERP-SKELETON", _fn.name + "/no-skip", "equations skipped by the interpreter loop", derived=str(_skips) if _skips else "no continue / break in the loop", expected="every equation is dispatched or bound", where=chk.where(_ci.module, _fn))
-    chk.require(_okctx, "INTERP-SKELETON", "eval_jaxpr_stateful/bind-context", "configuration context of the re-bound equations", derived="bind / dispatch " + ("inside" if _okctx else "outside") + " `with eqn.ctx.manager`",
+    chk.require(_okctx, "INTERP-SKELETON", "eval_jaxpr_stateful/bind-context", "configuration context of the re-bound equations", derived=_ctxtxt,
                 expected="with eqn.ctx.manager: <dispatch or bind>", where=chk.where(_ci.module, _fn))
     chk.explanation = "loop skeleton of the stateful interpreter by dataflow, writer/reader agreement of initial-style binding, environment read/write rules"
